@@ -170,6 +170,34 @@ def run(ctx):
         ctx.evaluations += 1
         ctx.count(f"history:{kind}:w={wq}:a={aq}")
         ctx.nontriv((kind, wq, aq, str(dt), tuple(events)))
+    # ---- modules whose bias is kept in another float dtype than the weight (float32 bias on a half-precision Linear):
+    # freeze must still leave the bias and the outputs alone (every weight qtype x half dtype; deterministic)
+    for dt in (torch.float16, torch.bfloat16):
+        for wq in ("qint2", "qint4", "qint8", "qfloat8", "qfloat8_e4m3fn", "qfloat8_e5m2"):
+            torch.manual_seed(rng.getrandbits(30))
+            model = torch.nn.Sequential(torch.nn.ReLU(), torch.nn.Linear(rng.choice([6, 160]), 3)).to(dt)
+            quantize(model, weights=q.qtypes[wq])
+            model[1].bias = torch.nn.Parameter(model[1].bias.detach().float() * 1.000123)
+            x = torch.randn(2, model[1].in_features).to(dt)
+            cfg = {"kind": "linear-with-float32-bias", "weights": wq, "activations": None, "dtype": str(dt), "events": ["freeze", "freeze"]}
+            try:
+                with torch.no_grad():
+                    before = (str(model(x).dtype), out_bits(model(x)))
+                    nw = nonweight_snapshot(model)
+                    freeze(model)
+                    after = (str(model(x).dtype), out_bits(model(x)))
+                    if before != after:
+                        ctx.spec_failures.append(("C09:freeze-changes-outputs", dict(cfg, at=0, refreeze=False, out_dtype_before=before[0], out_dtype_after=after[0])))
+                    if nonweight_snapshot(model) != nw:
+                        ctx.spec_failures.append(("C09:freeze-touches-non-weight-state", dict(cfg, at=0)))
+                    fs = frozen_snapshot(model)
+                    freeze(model)
+                    if frozen_snapshot(model) != fs:
+                        ctx.spec_failures.append(("C09:freeze-not-idempotent", dict(cfg, at=1)))
+            except Exception as e:  # noqa
+                ctx.spec_failures.append((f"C09:raises:{exc_name(e)}", dict(cfg, message=str(e)[:200])))
+            ctx.evaluations += 1
+            ctx.count("mixed-precision-bias")
     got = run_driver(slines)
     ctx.corr_cases += len(slines)
     for l, e, g, m in zip(slines, sexpect, got, smeta):
